@@ -331,7 +331,7 @@ GLOBL PostAffineMatrix<>(SB), (NOPTR+RODATA), $8
 
 //load round key
 #define loadRoundKey(R, RK) \
-    MOVD    (R), X1 \
+    MOVL    (R), X1 \
     ADDQ    $4, R \ //TODO replace by offsets to R
     VPBROADCASTD  X1, RK \ // latency is 3 for 256/512, 1 otherwise; CPI 1
 
